@@ -79,6 +79,22 @@ Qed.
 Lemma len_concat {A} nc (M : list (list A)) : Forall (fun r => len r = nc) M -> len (concat M) = len M * nc.
 Proof. induction 1; cbn [concat]. reflexivity. rewrite len_app, IHForall, H. unfold len. cbn [length]. rewrite Nat2Z.inj_succ. ring. Qed.
 
+(* the writer is row-major: entry (i, j) of the matrix is the (i * cols + j)-th entry on the wire; the numpy memory layout
+   (C order, transposed view, strided slice) is not an input of the model *)
+Lemma nth_concat_rect {A} (d : A) (nc : nat) (M : list (list A)) : Forall (fun r => length r = nc) M ->
+  forall i j, (i < length M)%nat -> (j < nc)%nat -> nth (i * nc + j) (concat M) d = nth j (nth i M []) d.
+Proof.
+  induction 1 as [|r M Hr HM IH]; intros i j Hi Hj. inversion Hi.
+  destruct i as [|i]; cbn [concat nth Nat.mul Nat.add].
+  - rewrite app_nth1 by lia. reflexivity.
+  - rewrite app_nth2 by lia. replace (nc + i * nc + j - length r)%nat with (i * nc + j)%nat by lia.
+    apply IH. cbn [length] in Hi. lia. exact Hj.
+Qed.
+Theorem wire_is_row_major cf (M : list (list qi)) (d : qi) (nc : nat) : Forall (fun r => length r = nc) M ->
+  forall i j, (i < length M)%nat -> (j < nc)%nat ->
+  match wm_data (enc_mat cf (MNum M)) with WMNum l => nth (i * nc + j) l d = nth j (nth i M []) d | WMSym _ => False end.
+Proof. intros H i j Hi Hj. cbn [enc_mat wm_data]. apply nth_concat_rect; assumption. Qed.
+
 Definition rect {A} (M : list (list A)) : Prop := 0 < ncols M /\ Forall (fun r => len r = ncols M) M.
 Theorem dec_enc_mat_num cf (M : list (list qi)) : rect M -> dec_mat (enc_mat cf (MNum M)) = Some (MNum M).
 Proof.
@@ -542,6 +558,7 @@ Record wf_exp (e : experiment) : Prop := mk_wf_exp {
   wx_out : Forall (fun mp => wf_aport (snd mp)) (e_out e);
   wx_heralds : forallb herald_ok (filter (fun mp => is_herald (snd mp)) (e_in e)) = true;
   wx_nher : e_nher e = len (filter (fun mp => is_herald (snd mp)) (e_in e));   (* heralds were added with add_herald *)
+  wx_hnum : e_hnum e = auto_numbers (e_in e);       (* anonymous heralds were added in increasing mode order *)
   wx_comps : Forall (fun oc => wf_comp env (snd oc)) (e_comps e);
   wx_fits : forallb (exp_fits (e_moi e + e_nher e)) (map injitem (e_comps e)) = true }.
 
@@ -551,7 +568,7 @@ Definition expected_exp (e : experiment) : dexp :=
   mkdexp (Some (e_name e)) (e_moi e) (e_nher e) (option_map enc_input (e_input e)) (e_noise e) (e_filter e) (e_post e)
     (e_in e)
     (filter (fun mp => is_herald (snd mp)) (e_in e) ++ filter (fun mp => negb (is_herald (snd mp))) (e_out e))
-    (e_dets e) (map injitem (e_comps e)).
+    (e_dets e) (map injitem (e_comps e)) (e_hnum e).
 
 Lemma forallb_map' {A B} (f : A -> B) (g : B -> bool) l : forallb g (map f l) = forallb (fun x => g (f x)) l.
 Proof. induction l; cbn [map forallb]; congruence. Qed.
@@ -563,7 +580,7 @@ Proof. unfold sv_sizes_ok, enc_svd. rewrite forallb_map'. apply forallb_ext'. in
 
 Theorem dec_enc_exp e : wf_exp e -> dec_exp cfg_now (enc_exp cfg_now ev e) = Some (expected_exp e).
 Proof.
-  intros [Hname Hfilter Hnoise Hdl Hdets Hinput Hin Hout Hher Hnher Hcomps Hfits].
+  intros [Hname Hfilter Hnoise Hdl Hdets Hinput Hin Hout Hher Hnher Hhnum Hcomps Hfits].
   unfold dec_exp, enc_exp. cbn [we_nmode we_input we_dets we_comps we_in we_out we_name we_noise we_filter we_post].
   set (n := e_moi e + e_nher e) in *.
   assert (EI : match option_map enc_input (e_input e) with
@@ -584,6 +601,7 @@ Proof.
   - rewrite <- Hnher. unfold n. lia.
   - symmetry. exact Hnher.
   - destruct (e_noise e) as [nm|]; cbn [option_map]. rewrite dec_enc_noise by exact Hnoise. reflexivity. reflexivity.
+  - symmetry. exact Hhnum.
 Qed.
 
 (* when the heralds are the same on both sides (all added with add_herald) the decoded output ports are the original ones
@@ -731,14 +749,24 @@ Theorem defined_expression_refuted : exists e a v,
 Proof. exists [50; 42; 97], [97], (q 1 2). vm_compute. reflexivity. Qed.
 Theorem one_sided_herald_refuted : exists e d, e_out e = [(1, AHerald 1 (Some [104]))] /\ e_in e = [] /\
   roundtrip cfg_now ev0 CDefault (VExperiment e) = Some (DVExperiment d) /\ de_out d = [].
-Proof. eexists (mkexp [69] 2 0 None None None None [] [(1, AHerald 1 (Some [104]))] [None; None] []), _.
+Proof. eexists (mkexp [69] 2 0 None None None None [] [(1, AHerald 1 (Some [104]))] [None; None] [] []), _.
   split. reflexivity. split. reflexivity. split. vm_compute. reflexivity. reflexivity. Qed.
 Theorem same_expression_twice_refuted : exists e a,
   roundtrip cfg_now ev0 CDefault (VCircuit (CLeaf (KBS 0) [PExpr e [(a, None)]; PExpr e [(a, None)]; PFix 0; PFix 0; PFix 0])) = None.
 Proof. exists [50; 42; 98], [98]. vm_compute. reflexivity. Qed.
 
+(* two anonymous heralds added out of mode order: herald0 on mode 3, herald1 on mode 1 before; swapped after *)
+Definition exp_h2 : experiment :=
+  mkexp [69] 2 2 None None None None [(3, AHerald 0 None); (1, AHerald 1 None)] [(3, AHerald 0 None); (1, AHerald 1 None)]
+    [None; None; None; None] [] [(3, 0); (1, 1)].
+Theorem anonymous_herald_names_refuted : exists d,
+  roundtrip cfg_now ev0 CDefault (VExperiment exp_h2) = Some (DVExperiment d) /\
+  e_hnum exp_h2 = [(3, 0); (1, 1)] /\ de_hnum d = [(3, 1); (1, 0)] /\ de_in d = e_in exp_h2.
+Proof. eexists. split. vm_compute. reflexivity. repeat split. Qed.
+(* ... while heralds added in mode order keep their names: [wx_hnum] in [dec_enc_exp] *)
+
 (* --- statements about the code BEFORE the repairs ([cfg_old]); the same inputs now round-trip (see the _now lemmas) *)
-Definition exp_f0 : experiment := mkexp [69] 2 0 None None (Some 0) None [] [] [None; None] [].
+Definition exp_f0 : experiment := mkexp [69] 2 0 None None (Some 0) None [] [] [None; None] [] [].
 Theorem filter_zero_refuted_old_code : exists d,
   roundtrip cfg_old ev0 CDefault (VExperiment exp_f0) = Some (DVExperiment d) /\ de_filter d = None.
 Proof. eexists. split. vm_compute. reflexivity. reflexivity. Qed.
@@ -771,7 +799,7 @@ Theorem nested_first_refuted_old_code : roundtrip cfg_old ev0 CDefault (VCircuit
 Proof. vm_compute. reflexivity. Qed.
 Theorem nested_first_now : roundtrip cfg_now ev0 CDefault (VCircuit nested_first) = Some (DVCircuit (inj nested_first)).
 Proof. vm_compute. reflexivity. Qed.
-Definition exp_nf : experiment := mkexp [69] 2 0 None None None None [] [] [None; None] [(0, CSub [115] 2 [(0, ps_a)]); (0, ps_a)].
+Definition exp_nf : experiment := mkexp [69] 2 0 None None None None [] [] [None; None] [(0, CSub [115] 2 [(0, ps_a)]); (0, ps_a)] [].
 Theorem nested_first_experiment_refuted_old_code : exists d o1 o2,
   roundtrip cfg_old ev0 CDefault (VExperiment exp_nf) = Some (DVExperiment d) /\
   de_comps d = [(0, DSub [115] 2 [(0, DLeaf KPS [DVar o1; DFix 0])]); (0, DLeaf KPS [DVar o2; DFix 0])] /\
